@@ -120,3 +120,22 @@ PROPS["C18"] = {
          "checks": {"quick": 40000, "thorough": 300000}, "shards": {"quick": 1, "thorough": 8}},
     ],
 }
+
+COMP = "internal/compression"
+
+PROPS["C20"] = {
+    "level": "exploration",
+    "rule": ("histories of pool-style use of ONE compressor and ONE decompressor instance per encoding (Reset/Write*/Close/Reset(io.Discard); Reset/ReadAll/Close/Reset(NoBody); instance discarded when Reset or Close fails, exactly as connect-go's pool does): "
+             "operations compress, roundtrip, decode of a valid independently-encoded stream, decode of a bit-flipped / truncated / empty stream; data empty, 1 byte, text, incompressible, >64 KiB; oracle: every compressor output is decoded to the input by the stdlib/third-party decoder of that name called directly, "
+             "every valid stream decodes to exactly the original bytes with no error at Reset/Read/Close whatever preceded it, malformed input never panics. Enum: all histories up to length 3 (quick) / 4 (thorough) over a 10-operation alphabet x 6 encodings. "
+             "Non-trivial: a valid decode right after a failed one, a reuse of an instance, empty or multi-block data."),
+    "assumptions": ["corrupted brotli/identity streams may decode to arbitrary bytes (no integrity check); only crash-freedom is asserted for malformed input",
+                    "decoded output is capped at 8 MiB"],
+    "units": [
+        {"name": "C20Histories", "pkg": COMP, "test": "TestVerifC20Histories", "kind": "rapid",
+         "checks": {"quick": 1500, "thorough": 20000}, "shards": {"quick": 4, "thorough": 16}},
+        {"name": "C20Enum", "pkg": COMP, "test": "TestVerifC20Enum", "kind": "enum",
+         "shards": {"quick": 8, "thorough": 16}, "env_tier": {"quick": {"VERIF_C20_MAXLEN": 3}, "thorough": {"VERIF_C20_MAXLEN": 4}}},
+        {"name": "C20Names", "pkg": COMP, "test": "TestVerifC20Names", "kind": "enum"},
+    ],
+}
